@@ -852,6 +852,16 @@ static int cli_cmd(bloc::Parser& p, bloc::Context& ctx, std::list<const bloc::St
 {
   bloc::TokenPtr t = p.front();
   CMD c = find_cmd(p.front()->text);
+  if (c != CMD_unknown && t->code == TOKEN_KEYWORD)
+  {
+    /* a word that is followed by an assignment, a type declaration or a
+     * member operator is the name of a variable, not a command */
+    p.pop();
+    int next = p.front()->code;
+    p.push(t);
+    if (next == '=' || next == TOKEN_ASSIGN || next == ':' || next == '.')
+      c = CMD_unknown;
+  }
   switch (c)
   {
   case CMD_unknown:
